@@ -57,11 +57,69 @@ def tree_json(t):
     return [k, v.value, [tree_json(s) for s in t.sons]]
 
 
+def jlook(x):
+    if isinstance(x, Epsilon):
+        return ["eps"]
+    if isinstance(x, str):
+        return [x]
+    return ["t", x.value]
+
+
+def lib_tie(cfg, drv, res, words):
+    """step-faithful tie: the worklists of get_first_set / get_follow_set, the table and the stack parser
+    against Pfl/Model/LL1Lib.lean, on any grammar (useful symbols or not)"""
+    g = G.extract(cfg)
+    if cfg.start_symbol is None:
+        res.tag("lib_tie_nostart")
+        return
+    parser = LLOneParser(cfg)
+    got = {"first": outcome(parser.get_first_set), "follow": outcome(parser.get_follow_set),
+           "table": outcome(parser.get_llone_parsing_table), "is": outcome(parser.is_llone_parsable)}
+    if any(v[0] != "ok" for v in got.values()):
+        res.tag("lib_tie_exc")
+        return
+    m = drv.call("cfg.ll1lib", G=g, words=words)
+    res.corr += 4
+
+    def dset(pairs, key):
+        return {key(k): sorted(map(tuple, v)) for k, v in pairs}
+    impl_first = {tuple(G.xsym(k)): sorted(tuple(jlook(x)) for x in v) for k, v in got["first"][1].items()}
+    if impl_first != dset(m["first"], tuple):
+        res.corr_break("get_first_set", "dict differs from the faithful worklist model",
+                       detail={"impl": str(impl_first), "model": m["first"]})
+    impl_follow = {tuple(G.xsym(k)): sorted(tuple(jlook(x)) for x in v) for k, v in got["follow"][1].items()}
+    if impl_follow != dset(m["follow"], lambda k: tuple(k) if k is not None else None):
+        res.corr_break("get_follow_set", "dict differs from the faithful worklist model",
+                       detail={"impl": str(impl_follow), "model": m["follow"]})
+    impl_table = sorted((h.value, tuple(jlook(a)), (p.head.value, tuple(tuple(G.xsym(x)) for x in p.body)))
+                        for h, row in got["table"][1].items() for a, ps in row.items() for p in ps)
+    model_table = sorted((h, tuple(a), (pr[0], tuple(tuple(x) for x in pr[1]))) for h, a, pr in m["table"])
+    if impl_table != model_table:
+        res.corr_break("get_llone_parsing_table", "table differs from the faithful model",
+                       detail={"impl": str(impl_table), "model": str(model_table)})
+    if got["is"][1] != m["isLLOne"]:
+        res.corr_break("is_llone_parsable", "verdict differs from the faithful model",
+                       detail={"impl": got["is"][1], "model": m["isLLOne"]})
+    for w, mt in zip(words, m["parse"]):
+        r = outcome(lambda w=w: tree_json(parser.get_llone_parse_tree(w)), limit=3.0)
+        res.corr += 1
+        if mt == "fuel" or r[0] == "timeout":
+            continue
+        want = ("exc", "NotParsableException") if mt is None else ("ok", mt)
+        if r != want:
+            res.corr_break("get_llone_parse_tree", "result differs from the faithful stack-machine model",
+                           detail={"word": w, "impl": str(r), "model": mt})
+            break
+    res.tag("lib_tie")
+
+
 def run_case(case, drv):
     res = CaseResult()
     st, cfg0 = outcome(lambda: G.build(case["g"]))
     if st != "ok":
         return res
+    ters0 = sorted({t.value for t in cfg0.terminals})[:3]
+    lib_tie(cfg0, drv, res, G.words_upto(ters0, 2) + [["zz"]])
     st, cfg = outcome(cfg0.remove_useless_symbols)
     if st != "ok" or not cfg.productions:
         res.tag("empty_after_cleanup")
